@@ -26,3 +26,9 @@ META = dict(
     explanation='one inductive step of the real take_bid from any invariant state + bounded model checking from the constructor against an explicit-history oracle',
     required_outcomes=[('ONGOING', 'H1 not applicable'), 'FINISHED', 'constructed'],
 )
+
+
+def validate(tier):
+    """translator validation: the interpreter in concrete mode against CPython on the functions this check encodes"""
+    from engine import validate as v
+    return v.run(['auctions', 'converters'], tier)
